@@ -33,6 +33,11 @@ GEN2 = {
     'default': lambda: {'order': ['build.ninja', 'x', 'gen.in', 'u', 's', 't1'],
                         'steps': [('regen', ['build.ninja'], ['gen.in'], None), ('a', ['t1'], ['s'], None), ('b', ['u'], ['s'], None)],
                         'default': ['u'], 'pools': {}},
+    # a step is added: every path mentioned after it is renumbered
+    'grown': lambda: {'order': ['build.ninja', 'c', 's', 't1', 'u', 'gen.in'],
+                      'steps': [('c', ['c'], ['s'], None), ('a', ['t1'], ['s'], None), ('b', ['u'], ['s'], None),
+                                ('regen', ['build.ninja'], ['gen.in'], None)],
+                      'default': [], 'pools': {}},
     # both user steps move into a pool of depth 1
     'pooled': lambda: {'order': ['build.ninja', 'gen.in', 's', 't1', 'u'],
                        'steps': [('regen', ['build.ninja'], ['gen.in'], None), ('a', ['t1'], ['s'], b'p'), ('b', ['u'], ['s'], b'p')],
@@ -55,7 +60,7 @@ FILENAMES = [None, b'./build.ninja']
 
 
 class Run:
-    def __init__(self, I, tree, groups, g1s=('plain', 'default-t1', 'pool2', 'helper'), g2s=('same', 'renamed', 'default', 'pooled'),
+    def __init__(self, I, tree, groups, g1s=('plain', 'default-t1', 'pool2', 'helper'), g2s=('same', 'renamed', 'default', 'pooled', 'grown'),
                  real_read=False):
         self.real_read = real_read      # True: load::read is the real loader over manifest TEXT (only file reading is modelled)
         self.L = Layout(tree.path)
@@ -102,7 +107,7 @@ class Run:
             return ok(ok(ba))
 
         def text_order(gen):
-            return sorted(gen['steps'], key=lambda st: gen['order'].index(st[1][0]))
+            return text_steps(gen)
 
         def on_real_read(I, args):
             gi = len(H.worlds)
@@ -354,7 +359,7 @@ def run_run(ctx, out, pid, groups, g1s=None, g2s=None, budget=None, report=None,
     from lib.driver import Violation
     from lib.mcheck import finish_exploration, load_interp, merge_cov
     I = load_interp(ctx)
-    H = Run(I, ctx.tree, groups, g1s or ('plain', 'default-t1', 'pool2', 'helper'), g2s or ('same', 'renamed', 'default', 'pooled'),
+    H = Run(I, ctx.tree, groups, g1s or ('plain', 'default-t1', 'pool2', 'helper'), g2s or ('same', 'renamed', 'default', 'pooled', 'grown'),
             real_read=real_read)
     ex = M.explore(I, H, jobs=ctx.jobs, time_budget=budget or (1500 if ctx.quick() else 4 * 3600), keep_summaries=6)
     name = ('run_impl with the REAL load::read over manifest text' if real_read else 'run_impl') + ' over two manifest generations (%s -> %s), targets %r, -f %r' % ('/'.join(H.g1s), '/'.join(H.g2s), TARGETS, FILENAMES)
@@ -373,12 +378,19 @@ def run_run(ctx, out, pid, groups, g1s=None, g2s=None, budget=None, report=None,
 
 
 # ---------------------------------------------------------------------------------------------------- native replay
+def text_steps(gen):
+    """statement order of the rendered manifest: user steps in interning order of their first output, the generator's
+    own statement last (where generators usually put it)"""
+    steps = sorted(gen['steps'], key=lambda st: gen['order'].index(st[1][0]))
+    return [st for st in steps if st[0] != 'regen'] + [st for st in steps if st[0] == 'regen']
+
+
 def manifest_text(gen):
     t = 'rule regen\n  command = sh ./regen.sh\n  generator = 1\nrule cc\n  command = sh ./step.sh $out\n'
     for k, v in gen['pools'].items():
         t += 'pool %s\n  depth = %d\n' % (k.decode(), v)
     # statement order follows the interning order of the outputs
-    steps = sorted(gen['steps'], key=lambda s: gen['order'].index(s[1][0]))
+    steps = text_steps(gen)
     for st_ in steps:
         nm, outs, ins, pool = st_[:4]
         if nm == 'regen':
@@ -424,7 +436,7 @@ def native_run(tree, extra, model):
                 if e[2] == 'regen' and e[1] == 1:
                     sh('touch -d @1000000500 gen.in')
                 elif e[1] == 1 or extra['g2'] != 'renamed':
-                    out = {'a': 't1', 'b': 'u', 'a2': 't2', 'hs': 'h'}.get(e[2])
+                    out = {'a': 't1', 'b': 'u', 'a2': 't2', 'hs': 'h', 'c': 'c'}.get(e[2])
                     if out:
                         sh('rm -f %s' % out)
         fname = extra['filename']
@@ -432,7 +444,7 @@ def native_run(tree, extra, model):
         r = subprocess.run(cmd, cwd=d, stdout=subprocess.PIPE, stderr=subprocess.STDOUT, text=True, timeout=60)
         ran = open(os.path.join(d, 'ran.log')).read().split() if os.path.exists(os.path.join(d, 'ran.log')) else []
         m_ran = [e[2] for e in ev if e[0] == 'start']
-        name2out = {'regen': 'regen', 'a': 't1', 'b': 'u', 'a2': 't2', 'hs': 'h'}
+        name2out = {'regen': 'regen', 'a': 't1', 'b': 'u', 'a2': 't2', 'hs': 'h', 'c': 'c'}
         res = {'ran': ran, 'rc': r.returncode, 'out': r.stdout.strip()[-160:], 'path_started': [name2out.get(x, x) for x in m_ran]}
         # the native run confirms the finding when it shows the same commands as the failing path
         res['confirms'] = sorted(ran) == sorted(res['path_started'])
